@@ -46,6 +46,9 @@ pub struct Script {
     /// when set, every write fails with BrokenPipe (the peer is gone while its bytes are still readable);
     /// what the session TRIED to write is still recorded
     pub wfail: bool,
+    /// when non-zero, one write call accepts at most this many bytes (a client whose window is small): a sender that
+    /// does not loop until everything is written leaves a torn frame
+    pub max_write: usize,
 }
 
 pub struct Transport(Arc<Mutex<Script>>);
@@ -95,11 +98,13 @@ impl AsyncWrite for Transport {
         if s.stalled {
             return Poll::Pending;
         }
-        s.written.extend_from_slice(buf);
         if s.wfail {
+            s.written.extend_from_slice(buf);
             return Poll::Ready(Err(std::io::ErrorKind::BrokenPipe.into()));
         }
-        Poll::Ready(Ok(buf.len()))
+        let n = if s.max_write > 0 { buf.len().min(s.max_write) } else { buf.len() };
+        s.written.extend_from_slice(&buf[..n]);
+        Poll::Ready(Ok(n))
     }
     fn poll_flush(self: Pin<&mut Self>, _cx: &mut Context<'_>) -> Poll<std::io::Result<()>> {
         Poll::Ready(Ok(()))
@@ -269,6 +274,16 @@ static HUNG: std::sync::atomic::AtomicUsize = std::sync::atomic::AtomicUsize::ne
 /// runs on its own thread; a case that has not finished after 10 s is reported as `HANG`, its thread is abandoned,
 /// and after a few of those no further session cases are produced (the ones written suffice for the report).
 fn run_case_opt(out: &mut Out, inst_tok: &str, tag: &str, evs: &[Ev], nontrivial: bool, wfail: bool) {
+    run_case_full(out, inst_tok, tag, evs, nontrivial, wfail, 0)
+}
+
+/// The same with a client that takes at most `k` bytes per write.
+pub fn run_case_window(out: &mut Out, inst_tok: &str, tag: &str, evs: &[Ev], nontrivial: bool, k: usize) {
+    run_case_full(out, inst_tok, tag, evs, nontrivial, false, k);
+    out.count("transport: small write window");
+}
+
+fn run_case_full(out: &mut Out, inst_tok: &str, tag: &str, evs: &[Ev], nontrivial: bool, wfail: bool, max_write: usize) {
     use std::sync::atomic::Ordering;
     if HUNG.load(Ordering::SeqCst) >= 4 {
         return;
@@ -279,6 +294,7 @@ fn run_case_opt(out: &mut Out, inst_tok: &str, tag: &str, evs: &[Ev], nontrivial
     let worker = std::thread::spawn(move || {
         let mut s = SessionRun::new();
         s.script.lock().unwrap().wfail = wfail;
+        s.script.lock().unwrap().max_write = max_write;
         let outs: Vec<String> = evs2.iter().map(|e| s.event(e)).collect();
         let _ = tx.send(outs);
     });
